@@ -72,6 +72,32 @@ pub fn generate(opts: &Opts, sink: &mut CaseSink) {
         sink.push(format!("(CSeq {} {} {} {} {})", a.coq(), m.coq(), r.coq(), bs.coq(), out.coq()),
                   json!({"kind": "sequential path", "add": a, "mod": m, "repeat": r, "batches": format!("{:?}", bs), "impl_output": format!("{:?}", out)}), nd >= 3 && bs.len() >= 2);
     }
+    // whole sequential jobs through the real producer side (End + Batcher) and consumer side of
+    // two block boundaries with one replica each, batch sizes below, at and ABOVE the default
+    // 1024, input lengths around a multiple of the batch size
+    let modes: [(usize, u64); 7] = [(1, 0), (7, 0), (1024, 0), (2048, 0), (4096, 0), (1024, 50), (4096, 50)];
+    for (i, (b, adaptive_ms)) in modes.iter().enumerate() {
+        if !opts.thorough && i % 2 == 1 && *b < 2048 { continue; }
+        let n = (*b as i64 + *rng.pick(&[0i64, 1, 100, 700])).min(6000);
+        let (a, m, r) = (rng.range(-3, 3), rng.range(2, 4), rng.range(1, 2));
+        let par = rng.range(1, 4) as u64;
+        let bm = if *adaptive_ms > 0 { renoir::BatchMode::adaptive(*b, std::time::Duration::from_millis(*adaptive_ms)) } else { renoir::BatchMode::fixed(*b) };
+        let out = catch(move || {
+            let env = renoir::StreamContext::new(renoir::RuntimeConfig::local(par).unwrap());
+            let res = env.stream_iter(0..n).batch_mode(bm)
+                .map(move |v: i64| v + a)
+                .replication(renoir::Replication::One)
+                .filter(move |v: &i64| v.rem_euclid(m) != 0)
+                .replication(renoir::Replication::One)
+                .flat_map(move |v: i64| std::iter::repeat(v).take(r as usize).collect::<Vec<_>>())
+                .collect_vec();
+            env.execute_blocking();
+            res.get().unwrap_or_default()
+        }).unwrap_or_else(|e| { eprintln!("C16 job: {e}"); vec![i64::MIN] });
+        sink.count("sequential_job");
+        sink.push(format!("(CJob {} {} {} {} {})", a.coq(), m.coq(), r.coq(), n.coq(), out.coq()),
+                  json!({"kind": "sequential job", "batch": b, "adaptive_ms": adaptive_ms, "n": n, "parallelism": par, "add": a, "mod": m, "repeat": r, "output_len": out.len()}), true);
+    }
 }
 
-pub const RULE: &str = "reorder: random multi-round scripts, out-of-order timestamps above the last watermark, many ties, watermarks placed anywhere, untimestamped items and FlushBatch mixed in; sequential path: one producer stream cut into batches of size 1/2/3/unbounded (every batch mode is such a cutting) delivered to the real consumer-side Start followed by map/filter/flat_map. Non-trivial: >=3 data elements (and >=2 batches); distinct = distinct case terms";
+pub const RULE: &str = "reorder: random multi-round scripts, out-of-order timestamps above the last watermark, many ties, watermarks placed anywhere, untimestamped items and FlushBatch mixed in; sequential path: one producer stream cut into batches of size 1/2/3/unbounded (every batch mode is such a cutting) delivered to the real consumer-side Start followed by map/filter/flat_map; sequential jobs: stream_iter(0..n) -> map -> filter -> flat_map over two one-replica block boundaries, executed on the engine with fixed / adaptive batch sizes 1, 7, 1024, 2048, 4096 and n = size + 0/1/100/700, output compared IN ORDER. Non-trivial: >=3 data elements (and >=2 batches); distinct = distinct case terms";
